@@ -24,7 +24,8 @@ Prefixes == <<
   <<WD(3, 5, 2)>>,                                    \* 3: one 2-tick domain
   <<WD(1, 2, 1), WD(2, 3, 1), WD(5, 6, 1)>>,          \* 4: adjacent pair + far one
   <<WD(5, 6, 1), WD(1, 2, 1), WD(3, 4, 1), WD(7, 8, 1)>>, \* 5: four, inserted out of order (T >= 7)
-  <<WD(2, 4, 2), WD(4, 6, 2)>>                        \* 6: two adjacent 2-tick, 2-unit domains (partial deletes)
+  <<WD(2, 4, 2), WD(4, 6, 2)>>,                       \* 6: two adjacent 2-tick, 2-unit domains (partial deletes)
+  <<WD(2, 5, 3)>>                                     \* 7: one 3-tick, 3-unit domain (delete splits it in two; MaxWrite >= 3)
 >>
 Prefix == IF PrefixId = 0 THEN <<>> ELSE Prefixes[PrefixId]
 
